@@ -100,6 +100,45 @@ Theorem c03_views_within_log : forall (s : schema) (es : list event) (key : N * 
 Proof. exact views_within_log. Qed.
 Print Assumptions c03_views_within_log.
 
+(* ---- the sidecar is a cache that can be lost while the store lives ----
+   hstep: HEmit e (an append path) | HLose key (one stream's sidecar disappears) | HLoseAll (the sidecar directory
+   disappears) | HReplay key (ContinuityStore::replay_events).  After ANY such history, what replay_events serves for a
+   stream (the past of a late subscriber) is what the log holds for it and what the live subscriber received, whenever
+   the store's check of the sidecar has the shape read from today's source (wf_replay_check: first line seq 0,
+   successor seqs, empty file refused, fallback to the log) and the stream is numbered 0,1,2,.. (C01).
+   wire_ok s es : wire_event holds for every emitted frame (the rebuilt sidecar is written from decoded frames). *)
+Theorem c03_replay_after_cache_loss : forall (rc : replay_check) (s : schema) (hs : list hstep) (key : N * str),
+  wf_schema s = true -> wf_replay_check rc = true ->
+  all_ok s (emitted hs) -> wire_ok s (emitted hs) ->
+  seqs_from 0 (of_stream s key (emitted hs)) = true ->
+  let k := run_hist rc s hs in
+  fst (replay_events rc s key k) = Some (map (canon_event s) (view_live s key k))
+  /\ view_log s key k = Some (map (canon_event s) (view_live s key k))
+  /\ k_live k = emitted hs.
+Proof. exact replay_after_loss. Qed.
+Print Assumptions c03_replay_after_cache_loss.
+
+(* the shape of try_replay / replay_events and of the two append-to-disk steps (write, then an unconditional flush)
+   in today's source — regenerated on every run *)
+Theorem c03_current_replay_check : gen_ok_replay && wf_replay_check gen_replay_check = true.
+Proof. exact gen_replay_check_ok. Qed.
+Print Assumptions c03_current_replay_check.
+
+Theorem c03_current_log_write : gen_ok_log_write && wf_log_write gen_log_write = true.
+Proof. exact gen_log_write_ok. Qed.
+Print Assumptions c03_current_log_write.
+
+(* "first line seq 0" is necessary: with only "each frame follows the frame before it", a sidecar re-created by the
+   appends after a loss is served as the whole stream *)
+Theorem c03_replay_needs_first_zero_refuted :
+  exists rc s hs key,
+    rc_successor rc = true /\ rc_empty_refused rc = true /\ rc_fallback_log rc = true
+    /\ wf_schema s = true /\ all_ok s (emitted hs) /\ wire_ok s (emitted hs)
+    /\ seqs_from 0 (of_stream s key (emitted hs)) = true
+    /\ fst (replay_events rc s key (run_hist rc s hs)) <> Some (map (canon_event s) (view_live s key (run_hist rc s hs))).
+Proof. exact replay_needs_first_zero_refuted. Qed.
+Print Assumptions c03_replay_needs_first_zero_refuted.
+
 (* ---- the guards are necessary (faithful model: this is what serde does) ---- *)
 (* Some(null) in a field skipped when None: the key vanishes on the second write *)
 Theorem c03_some_null_skipped_refuted :
@@ -140,3 +179,13 @@ Proof. exact ev_plain_ok. Qed.
 
 Example c03_demo_history_ok : all_ok demo_schema [ev_plain; ev_some_null_kept].
 Proof. exact ev_plain_all_ok. Qed.
+
+(* a history with a loss between appends meets the hypotheses of c03_replay_after_cache_loss (4 frames in the stream) *)
+Example c03_demo_loss_history_ok :
+  wf_schema demo_schema = true /\ all_ok demo_schema (emitted demo_loss_history) /\ wire_ok demo_schema (emitted demo_loss_history)
+  /\ seqs_from 0 (of_stream demo_schema demo_key (emitted demo_loss_history)) = true
+  /\ length (of_stream demo_schema demo_key (emitted demo_loss_history)) = 4%nat.
+Proof. exact demo_loss_history_ok. Qed.
+
+Example c03_code_replay_check_wf : wf_replay_check rc_code = true.
+Proof. exact rc_code_wf. Qed.
